@@ -284,6 +284,27 @@ pub fn candidates(tier: Tier) -> Vec<Cand> {
             push(E::bin(BinOp::Eq, E::Rec(vec![("f".into(), x.clone())]), E::Rec(vec![("f".into(), y.clone())])), false, &mut out, &view_scope);
         }
     }
+    // --- comparisons between set-typed attributes of different element types (all of them are
+    // inhabited by the empty set, so none of these may be typed False) ---
+    {
+        let cols = E::attr(p(), "cols"); // Set<Color>, optional
+        let eds = E::attr(r(), "eds"); // Set<User>, optional
+        let labels = E::attr(r(), "labels"); // Set<String>
+        let g = |body: E| E::and(E::has(p(), "cols"), E::and(E::has(r(), "eds"), body));
+        let sets = [cols.clone(), eds.clone(), labels.clone(), E::Set(vec![]), E::Set(vec![E::Ent(ua())]), E::Set(vec![E::ent("Color", "red")])];
+        for x in &sets {
+            for y in &sets {
+                for op in [BinOp::Eq, BinOp::Neq, BinOp::ContainsAll, BinOp::ContainsAny] {
+                    push(g(E::bin(op, x.clone(), y.clone())), false, &mut out, &view_scope);
+                    push(g(E::not(E::bin(op, x.clone(), y.clone()))), false, &mut out, &view_scope);
+                }
+                push(g(E::ite(E::bin(BinOp::Eq, x.clone(), y.clone()), E::attr(E::attr(r(), "meta"), "pub"), E::Bool(true))), false, &mut out, &view_scope);
+            }
+            push(g(E::IsEmpty(b(x.clone()))), false, &mut out, &view_scope);
+            push(g(E::bin(BinOp::Contains, x.clone(), p())), false, &mut out, &view_scope);
+            push(g(E::bin(BinOp::In, p(), x.clone())), false, &mut out, &view_scope);
+        }
+    }
     // --- other scopes: edit (resource Doc | Group), action groups, unconstrained action ---
     let edit_scope = AS::Eq(edit());
     let scopes = [edit_scope, AS::In(readers()), AS::InList(vec![view(), edit()]), AS::Any];
